@@ -1,2 +1,35 @@
-(* C20 placeholder *)
-From Rdest Require Import Base Consts Wire Manager Handler.
+(* C20 — silent peers are dropped, live ones are kept and kept alive. *)
+From Rdest Require Import Base Consts Wire Manager Handler HandlerProofs.
+Open Scope N_scope.
+
+(* a connection on which nothing but keep-alives (or nothing) arrives: the first two timer ticks (120 s, 240 s)
+   each emit one keep-alive, the third (360 s) closes it; keep-alive frames change nothing *)
+Theorem C20_silent : forall sha1 cf disk ovf s r, h_keep_alive s = 0 ->
+  hstep sha1 cf disk ovf s ETick r = HCont (set_ka s 1) [ASend KeepAlive] /\
+  hstep sha1 cf disk ovf (set_ka s 1) ETick r = HCont (set_ka s 2) [ASend KeepAlive] /\
+  hstep sha1 cf disk ovf (set_ka s 2) ETick r = HEnd (set_ka s 2) [] false /\
+  (forall s', h_hs_done s' = true -> hstep sha1 cf disk ovf s' (EFrame KeepAlive) r = HCont s' []).
+Proof. exact silent_closes. Qed.
+
+(* any other message resets the count: the next tick keeps the connection and emits a keep-alive, so a
+   connection delivering another message at least once per interval is never closed for inactivity *)
+Theorem C20_live : forall sha1 cf disk ovf s m r s' r2, m <> KeepAlive ->
+  continues (hstep sha1 cf disk ovf s (EFrame m) r) = Some s' ->
+  hstep sha1 cf disk ovf s' ETick r2 = HCont (set_ka s' 1) [ASend KeepAlive].
+Proof. exact live_kept. Qed.
+
+(* only the timer increases the count of silent intervals *)
+Theorem C20_only_timer_counts : forall sha1 cf disk ovf s ev r s', ev <> ETick -> h_hs_done s = true ->
+  continues (hstep sha1 cf disk ovf s ev r) = Some s' -> h_keep_alive s' <= h_keep_alive s.
+Proof. exact non_tick_ka. Qed.
+
+(* every tick that does not close the connection emits exactly one keep-alive *)
+Theorem C20_emit : forall sha1 cf disk ovf s r, h_keep_alive s <> 2 ->
+  hstep sha1 cf disk ovf s ETick r = HCont (set_ka s (h_keep_alive s + 1)) [ASend KeepAlive].
+Proof. exact tick_emits. Qed.
+
+(* the release of the peer state and reservation on termination is C12's kill_peer (Props/C12.v) *)
+Print Assumptions C20_silent.
+Print Assumptions C20_live.
+Print Assumptions C20_only_timer_counts.
+Print Assumptions C20_emit.
